@@ -1,6 +1,7 @@
 from excel2pycl.src.cell import Cell
 from excel2pycl.src.context import Context
 from excel2pycl.src.excel import Excel
+from excel2pycl.src.exceptions import E2PyclParserException
 from excel2pycl.src.translators.abstract_translator import AbstractTranslator
 
 
@@ -26,9 +27,15 @@ class CellTranslator(AbstractTranslator):
             if isinstance(cell.value, str) and cell.value.find('=') == 0:
                 from excel2pycl.src.ast_builder import AstBuilder
                 from excel2pycl.src.lexer import Lexer
-                lexer = Lexer.parse(cell.value, in_cell=cell)
-                ast = AstBuilder.parse(lexer, in_cell=cell)
-                code = EntryPointTokenTranslator.translate(ast, excel, context)
+                if cell.uid in context._cells_in_translation:
+                    raise E2PyclParserException(f'Cyclic dependency: the formula of {cell} depends on its own value')
+                context._cells_in_translation.add(cell.uid)
+                try:
+                    lexer = Lexer.parse(cell.value, in_cell=cell)
+                    ast = AstBuilder.parse(lexer, in_cell=cell)
+                    code = EntryPointTokenTranslator.translate(ast, excel, context)
+                finally:
+                    context._cells_in_translation.discard(cell.uid)
             else:
                 code = repr(cell.value) if cell.value is not None else 'self.EmptyCell()'
             context.set_cell(cell, code)
